@@ -436,7 +436,50 @@ pub fn run(ctx: &mut Ctx) {
         }
         ctx.count(&format!("lengths-enumerated-exhaustively:{len}"));
     }
+    // beyond the exhaustive lengths: a seeded sample of longer sequences (the quantifier goes to
+    // length 6; 28^6 sequences are sampled, not enumerated -- the evidence says how many)
+    let samples: &[(usize, u64)] = if ctx.quick() { &[(5, 60_000), (6, 60_000), (7, 20_000)] } else { &[(6, 20_000_000), (7, 2_000_000), (8, 1_000_000)] };
+    let rng = ctx.rng("c18-long");
+    for &(len, count) in samples {
+        for i in 0..count {
+            if !ctx.mine_idx(i) {
+                continue;
+            }
+            let mut r = rng.fork((len as u64) << 40 | i);
+            let mut ops: Vec<Op> = Vec::with_capacity(len);
+            let mut depth = 0i32;
+            while ops.len() < len {
+                let op = ops_all[r.below(n)];
+                match op {
+                    Op::Pop if depth == 0 => continue,
+                    Op::Pop => depth -= 1,
+                    Op::PushPlain(_) | Op::PushSandbox(_) | Op::PushGlobal => depth += 1,
+                    _ => {}
+                }
+                ops.push(op);
+            }
+            let has_push = ops.iter().any(|o| matches!(o, Op::PushPlain(_) | Op::PushSandbox(_) | Op::PushGlobal));
+            let with_caller = r.chance(1, 2);
+            let h = hash_combine(hash_str(&format!("{ops:?}")), with_caller as u64);
+            if ctx.evaluations % 256 == 0 {
+                ctx.set_progress(&ops_json(&ops, with_caller).to_string());
+            }
+            let res = check_seq(&ops, with_caller, &maps, &objs, &caller_obj);
+            ctx.record(h, has_push);
+            ctx.count(&format!("sampled-sequences-of-length:{len}"));
+            ctx.add("observations", (PATHS.len() * 2 + 2 + 1 + 2) as u64);
+            match res {
+                Ok((obs, hashes)) => {
+                    ctx.set_insert("abstract_states", *hashes.last().unwrap());
+                    ctx.set_insert("distinct_observations", hash_str(&obs));
+                    ctx.sample(|| json!({"ops": ops.iter().map(|o| format!("{o:?}")).collect::<Vec<_>>(), "with_caller_data": with_caller, "observed": obs}));
+                }
+                Err((key, what)) => ctx.violation(&key, &what, || ops_json(&ops, with_caller)),
+            }
+        }
+    }
     ctx.extra.insert("max_sequence_length".into(), json!(max_len));
+    ctx.extra.insert("max_sampled_sequence_length".into(), json!(samples.iter().map(|s| s.0).max()));
     ctx.extra.insert("operations".into(), json!(n));
 }
 
